@@ -6056,7 +6056,8 @@ class CodegenCtx:
         result.add("// possible end transitions")
         
         # Create all transitions for possible conditions
-        if unconditional_end_transition:
+        # (an accept state has already finished: failing to match anything further isn't an error at the end of input)
+        if unconditional_end_transition and not (state in self.dfa.accepting_states and unconditional_end_transition.error_handling):
             result += self._generate_transition_body(unconditional_end_transition, True)
 
         if state in self.dfa.accepting_states:
